@@ -79,6 +79,12 @@ func convertToParagraph(data reflect.Value) (*Paragraph, error) {
 			continue
 		}
 
+		if fieldType.PkgPath != "" {
+			/* unexported members are none of our business (and can't
+			 * be looked into anyway) */
+			continue
+		}
+
 		paragraphKey := fieldType.Name
 		if it := fieldType.Tag.Get("control"); it != "" {
 			paragraphKey = it
